@@ -376,6 +376,17 @@ func runBatch(rt *rapid.T, b batch) {
 						_ = xc.Send(mesh.XRequest(down, uint32(r.ID), r.Token, []byte(mesh.Wrap(r.Token)), 0, codec.KV{K: []byte("x-big"), V: bytes.Repeat([]byte("h"), big)}))
 						continue
 					}
+					if b.AddHeader && (down == "bolt" || down == "boltv2") {
+						// the requests of a batch differ in the NUMBER of header pairs they carry (0..6 extra ones, by request id):
+						// the decoded header lists of successive frames on a connection - and whatever is recycled between
+						// them - are of different lengths when the route then adds its own header
+						var extra []codec.KV
+						for k := 0; k < int(r.ID%7); k++ {
+							extra = append(extra, codec.KV{K: []byte(fmt.Sprintf("x-e%d", k)), V: []byte(fmt.Sprintf("v%d-%s", k, r.Token))})
+						}
+						_ = xc.Send(mesh.XRequest(down, uint32(r.ID), r.Token, padded(r.Token, "-req", r.ReqLen), 0, extra...))
+						continue
+					}
 					_ = xc.Send(mesh.XBuildRequest(down, r.ID, r.Token, padded(r.Token, "-req", r.ReqLen)[len(mesh.Wrap(r.Token)):]))
 				}
 				if b.DropConn == ci {
